@@ -84,6 +84,7 @@ func main() {
 			"cors":     {suiteCors(*tier, r), "real Service with four allow-lists x 17 Origin headers (absent, empty, null, listed in any case, near misses, unlisted) x GET/POST/OPTIONS through ServeHTTP + WebSocket upgrade; refusal, Access-Control-Allow-Origin, Vary and upgrade verdict compared with the model; a refused request causes no service request", false},
 			"blocked":  {suiteBlocked(*tier, r), "HTTP GET whose response writer blocks (connection worker busy inside the response callback) while the other answer for that connection arrives; three answer orders; after completion and eviction flush the cache must be empty", false},
 			"httppath": {suiteHTTPPath(*tier, r), "real ServeHTTP with GET/HEAD/POST, PUT and PATCH mapped to call methods, DELETE unmapped and an unknown method on valid and invalid paths (wildcards, empty tokens, escapes decoding to separators, whitespace, control and non-ASCII bytes, trailing slash; exhaustive over a 16-symbol alphabet up to length 3/4 + random): 404/405 without service traffic or the resource id, query and method of the requests sent, compared with the model's httpDispatch; every subject sent must be hygienic", false},
+			"frames":   {suiteFrames(*tier, r), "17 hand-written client frames (JSON objects with an unsigned integer id: extra members such as jsonrpc, member order, whitespace, escapes, ids 0 and 2^53-1, params of every JSON kind) over a real WebSocket to the real Service: each gets exactly one response frame carrying its id", false},
 			"wsauth":   {suiteWSAuth(*tier, r), "WebSocket upgrades with header authentication (Config.WSHeaderAuth): four kinds of auth answer x 17 meta statuses; a status within 300..599 refuses the upgrade with that status, anything else lets it proceed; service headers merged into the handshake response without replacing Sec-WebSocket-*", false},
 			"svc":      {suiteSvc(*tier, r), "all words up to length 3 (thorough: 4) over {start, stop, connection-loss, connect, http}, requests arriving in the middle of Stop (messaging client held in Close), restart after a loaded resource (no service from the previous run's cache) + random longer words on the real Service with idle client sockets; after each stop: sockets closed, stop channel carries the cause, new connections refused, HTTP 503", false},
 			"nats":     {suiteNats(*tier, r), "the real nats.Client against an in-harness NATS text-protocol server: 11 scripted reply behaviours x 4 concurrent instances per round (reply, silence, several, late, no responders, pre-response then reply / silence / second pre-response / shortened, reply racing the timeout), an over-long subject, 20 ordered events, server disconnect", false},
